@@ -3,7 +3,7 @@ ID = 'C07'
 LEVEL = 'proof'
 CONTRACT_MODULES = ['contracts.stats', 'contracts.evals']
 CONE = ['csep.core.poisson_evaluations._number_test_ndarray', 'csep.core.poisson_evaluations.number_test', 'csep.core.binomial_evaluations._nbd_number_test_ndarray', 'csep.core.binomial_evaluations.negative_binomial_number_test', 'csep.utils.stats.get_quantiles', 'csep.utils.stats.greater_equal_ecdf', 'csep.utils.stats.less_equal_ecdf']
-ORACLE_MODULES = ['rt.oracles_eval']
+ORACLE_MODULES = ['rt.oracles_eval', 'rt.oracles_contracts']
 BOUNDED = os.path.exists(os.path.join(os.path.dirname(__file__), '..', 'rt', 'bounded_C07.py'))
 FLOAT_MODEL = 'R: obs_cnt -/+ 1e-6 is exact, floor(n - 1e-6) = n - 1 for integer n (the float error of n - 1e-6 is < 1e-10 for n <= 1e5: assumed)'
 TRUSTED = ['scipy.stats.poisson.cdf(x, mu) = F_mu(floor(x)), nbinom.cdf(x, n, p) = F_{n,p}(floor(x)), both in [0,1], 0 below 0, non-decreasing in x (assumed contract, sampled by the bounded layer against sf/cdf)', 'monotonicity of the tails in the forecast mean is a fact about the Poisson/NB families, not about code: not machine-checked', 'pyvc engine, z3 5.1']
